@@ -610,14 +610,15 @@ class CompositeDistribution(d.Distribution):
             KeyError: If neither `<sample_name>` nor `<sample_name>_cdf` can be found in the input TensorDict for a component distribution.
         """
         for name, dist in self.dists.items():
-            prob = sample.get(_add_suffix(name, "_cdf"))
+            prob = sample.get(_add_suffix(name, "_cdf"), None)
             if prob is None:
-                try:
-                    prob = self.cdf(sample.get(name))
-                except KeyError:
+                value = sample.get(name, None)
+                if value is None:
                     raise KeyError(
-                        f"Neither {name} nor {name + '_cdf'} could be found in the sampled tensordict. Make sure one of these is available to icdf."
+                        f"Neither {name} nor {_add_suffix(name, '_cdf')} could be found in the sampled tensordict. Make sure one of these is available to icdf."
                     )
+                # the cdf of this component (self.cdf works on tensordicts, not on one value)
+                prob = dist.cdf(value)
             icdf = dist.icdf(prob)
             sample.set(_add_suffix(name, "_icdf"), icdf)
         return sample
